@@ -26,23 +26,13 @@ import (
 
 var c13Ctx = context.Background()
 
-const c13DBPath = "/c13/meta"
+var c13FSOnce sync.Once
 
-var (
-	c13FSMu   sync.Mutex
-	c13FSCur  vfs.FS
-	c13FSOnce sync.Once
-)
-
-// c13OpenDB opens a meta DB on fs. The seam's provider is process global and
-// only consulted inside Open, so Opens are serialised.
-func c13OpenDB(fs vfs.FS) (*metadb.DB, error) {
-	c13FSOnce.Do(func() { engine.SetVerifFS(func() vfs.FS { return c13FSCur }) })
-	c13FSMu.Lock()
-	defer c13FSMu.Unlock()
-	c13FSCur = fs
-	defer func() { c13FSCur = nil }()
-	return metadb.Open(c13DBPath)
+// c13OpenDB opens a meta DB on fs under the given router root.
+func c13OpenDB(fs vfs.FS, root string) (*metadb.DB, error) {
+	c13FSOnce.Do(func() { engine.SetVerifFS(func() vfs.FS { return c13Mux{} }) })
+	c13Roots.Store(root, fs)
+	return metadb.Open(c13RootPrefix + root + "/meta")
 }
 
 type c13Tuner interface {
@@ -51,16 +41,23 @@ type c13Tuner interface {
 }
 
 type c13Env struct {
-	fs  vfs.FS
-	fam c13Family
-	db  *metadb.DB
-	sm  multiraft.StateMachine
-	bsm multiraft.BatchStateMachine
-	dsm multiraft.DurableAppliedStateMachine
+	fs   vfs.FS
+	root string // router root; a crash image keeps the root of its origin
+	fam  c13Family
+	db   *metadb.DB
+	sm   multiraft.StateMachine
+	bsm  multiraft.BatchStateMachine
+	dsm  multiraft.DurableAppliedStateMachine
 }
 
 func c13NewEnv(fs vfs.FS, fam c13Family) (*c13Env, error) {
-	e := &c13Env{fs: fs, fam: fam}
+	return c13NewEnvAt(fs, c13NewRoot(), fam)
+}
+
+// c13NewEnvAt opens fs under an existing root (crash images of that root).
+// No two simultaneously open environments may share a root.
+func c13NewEnvAt(fs vfs.FS, root string, fam c13Family) (*c13Env, error) {
+	e := &c13Env{fs: fs, root: root, fam: fam}
 	if err := e.open(); err != nil {
 		return nil, err
 	}
@@ -83,7 +80,7 @@ func c13Timed(name string, start time.Time) {
 
 func (e *c13Env) open() error {
 	defer c13Timed("open", time.Now())
-	db, err := c13OpenDB(e.fs)
+	db, err := c13OpenDB(e.fs, e.root)
 	if err != nil {
 		return fmt.Errorf("meta open: %w", err)
 	}
